@@ -47,7 +47,14 @@ def ortho_matrix(c):
     return m
 
 
+UNITS = [1.0, 1.0, 1e9, 1e-2, 1e3, 1e-12, 1e12]  # GPa (twice), Pa, Mbar, MPa, and far-out scales
+
+
 def ortho_spec():
+    return st.builds(lambda spec, unit: dict(spec, unit=unit), _ortho_spec(), st.sampled_from(UNITS))
+
+
+def _ortho_spec():
     return st.one_of(
         st.just({"k": "olivine"}),
         st.just({"k": "enstatite"}),
@@ -63,11 +70,14 @@ def ortho_spec():
 
 
 def ortho_from(spec):
+    """The decomposition is homogeneous: moduli scale with the unit of the stiffnesses, the
+    percentages and the axis do not depend on it."""
+    unit = spec.get("unit", 1.0)
     if spec["k"] == "olivine":
-        return _minerals.StiffnessTensors().olivine.copy()
+        return _minerals.StiffnessTensors().olivine.copy() * unit
     if spec["k"] == "enstatite":
-        return _minerals.StiffnessTensors().enstatite.copy()
-    return ortho_matrix(spec["d"] + spec["o"] + spec["s"])
+        return _minerals.StiffnessTensors().enstatite.copy() * unit
+    return ortho_matrix(spec["d"] + spec["o"] + spec["s"]) * unit
 
 
 def _contractions(m):
@@ -183,10 +193,13 @@ def check_orthorhombic(case):
         e = abs(np.sqrt(ssq) - pa)
         require(e <= 1e-7, f"{what}: squared class percentages do not add up to the squared percent anisotropy (|diff|={e:.3e})", e)
         worst = max(worst, e)
-    for k in KEYS + ["bulk_modulus", "shear_modulus"]:
+    for k in KEYS:
         e = abs(out[k][0] - out[k][1])
         require(e <= 1e-7 * max(1.0, abs(out[k][0])), f"{k} changes under a frame rotation: {out[k][0]!r} -> {out[k][1]!r}", e)
         worst = max(worst, e)
+    for k in ("bulk_modulus", "shear_modulus"):
+        e = abs(out[k][0] - out[k][1]) / np.abs(m0).max()
+        require(e <= 1e-10, f"{k} changes under a frame rotation: {out[k][0]!r} -> {out[k][1]!r}", e)
     a0, a1 = out["hexagonal_axis"][0], out["hexagonal_axis"][1]
     e = min(np.abs(Q @ a0 - a1).max(), np.abs(Q @ a0 + a1).max())
     require(e <= 1e-7, f"hexagonal axis does not co-rotate: Q.axis0={Q @ a0}, axis'={a1}", e)
@@ -199,7 +212,7 @@ def check_orthorhombic(case):
     require(int(np.argmax(np.abs(a0))) == best[2], f"reported hexagonal axis {a0} is not the axis of the closest hexagonal approximation (coordinate axis {best[2]}; distances {[round(o[0], 6) for o in own]})")
     for k, v in best[1].items():
         require(abs(out[k][0] - v) <= 1e-7, f"{k} = {out[k][0]!r}, decomposition about the best axis gives {v!r}")
-    return {"nontrivial": gen.angle_from_axis24(Q) >= 5.0, "labels": [case["C"]["k"], case["Q"]["k"]], "residual": max(worst, e)}
+    return {"nontrivial": gen.angle_from_axis24(Q) >= 5.0, "labels": [case["C"]["k"], case["Q"]["k"], f"unit{case['C'].get('unit', 1.0):g}"], "residual": max(worst, e)}
 
 
 def avg_case():
@@ -276,7 +289,7 @@ def check_general(case):
     from checks.c11 import sym_matrix
 
     m = sym_matrix(case["m"])
-    m = m + np.eye(6) * (np.abs(m).sum(axis=1).max() + 1.0)
+    m = (m + np.eye(6) * (np.abs(m).sum(axis=1).max() + 1.0)) * case.get("unit", 1.0)
     out = sut(pydrex.elasticity_components, m[None])
     _basic(out, m, 0, "general tensor")
     # upper triangle is what counts (documented behaviour: symmetrised from the upper triangle)
@@ -295,5 +308,5 @@ ORACLES = [
         thorough=4000,
     ),
     Oracle("voigt_average_frame", avg_case(), check_average_frame, quick=80, thorough=2000),
-    Oracle("general_moduli", st.fixed_dictionaries({"m": sym21}), check_general, quick=150, thorough=1500),
+    Oracle("general_moduli", st.fixed_dictionaries({"m": sym21, "unit": st.sampled_from(UNITS)}), check_general, quick=150, thorough=1500),
 ]
